@@ -71,6 +71,10 @@ TABLE = {
    text='the real threaded Server with real threads under a controlled scheduler (one thread runs at a time): bounded-exhaustive DFS over all schedules of every pair of the four terminating causes with pre-emption at each client-manager / engine.io call and inside the disconnect handler (pre-emption-bounded for triples), plus seeded random schedules with statement-level yield points injected through sys.monitoring LINE events in server.py, base_manager.py and manager.py; per schedule: disconnect handler exactly once, no exception in any thread or engine.io log, no API-level residue and object-graph size equal to the clean baseline',
    note='interleavings inside a single bytecode instruction are not explored; DFS is capped per pair in the quick tier (completeness per pair is reported in evidence); locks of the manager are replaced by scheduler-aware ones',
    tech='runtime monitoring: controlled thread scheduler (systematic + randomized schedule exploration) with exactly-once / escape / residue monitors'),
+ 'C19': dict(cat='exploration',
+   text='real SimpleClient over a real Client over the scripted engine.io, its two Events and input buffer replaced by scheduler-aware equivalents; producer (handler) threads, consumer, network (final loss / loss with successful reconnection) and emitter actors run under a controlled scheduler: every interleaving (DFS, capped per scenario, completeness reported) at the granularity of the client\'s event/buffer operations for 11 small scenarios, seeded random schedules (60% with statement-level yield points in simple_client.py via sys.monitoring) for random larger ones; AsyncSimpleClient: every release order of the parked tasks at delivery and wake-up points on a virtual-time loop; oracles: returned sequence = arrival sequence prefix, TimeoutError only with nothing unreturned (timeouts fire only at quiescence), DisconnectedError only after a final end with every event that arrived before it returned, emit() never fails except DisconnectedError after a final end',
+   note='arrival order = order of the real appends; the instant of the final end is taken at the assignment connected=False',
+   tech='runtime monitoring: controlled scheduler (bounded-exhaustive + randomized), unique tokens, order/exactly-once trace oracle'),
 }
 # filled in as checks are built; see bottom of file for the not-built reason
 
